@@ -234,3 +234,95 @@ func monoConcCase(k *engine.Case) {
 	k.Count("mono_conc_calls_invoked_during_another", ov)
 	k.Logf("  %d ids, %d calls invoked while another was in flight", total, ov)
 }
+
+// monoWrapConcCase: the step-counter wrap of a MonoNode (the 4097th id of one millisecond makes
+// the generator wait for the next millisecond) while other goroutines keep calling. Rounds with
+// a barrier: between rounds no call is in flight and the counter is put a few steps below 4096
+// (hook); in a round 3-8 goroutines generate a burst each. Ids must be unique, increasing per
+// goroutine, above every id of the rounds before, and carry the node number.
+func monoWrapConcCase(k *engine.Case) {
+	r := k.R
+	l := pickMonoLayout(r)
+	node := pickNode(r, l)
+	restoreCfg := snowflake.VerifSetConfig(l.epoch, l.nb, l.low)
+	defer restoreCfg()
+	n, err := snowflake.NewMonoNode(node)
+	if err != nil {
+		k.Inconclusive("NewMonoNode refused a node number inside the configured width")
+		return
+	}
+	if !snowflake.VerifMonoPresetStep(n, 0) {
+		k.Count("mono_step_preset_unavailable", 1)
+		return
+	}
+	g := 3 + r.Intn(6)
+	rounds := 30 + r.Intn(30)
+	per := 8 + r.Intn(40)
+	desc := fmt.Sprintf("MonoNode wrap under concurrency %s node=%d goroutines=%d rounds=%d ids/goroutine/round=%d", l, node, g, rounds, per)
+	k.Logf("%s", desc)
+	k.Nontrivial()
+	k.Distinct(engine.HashStr(desc))
+	old := runtime.GOMAXPROCS([]int{2, 4, 8, 16}[r.Intn(4)])
+	defer runtime.GOMAXPROCS(old)
+	out := make([][]int64, g)
+	for i := range out {
+		out[i] = make([]int64, per)
+	}
+	floor := int64(0)
+	var total int64
+	for round := 0; round < rounds; round++ {
+		first := n.Generate()
+		if first <= floor {
+			k.Fail("mono/not-increasing", "%s node=%d: %s was returned after %s of an earlier round", l, node, fields(first), fields(floor))
+			return
+		}
+		left := int64(1 + r.Intn(20))
+		snowflake.VerifMonoPresetStep(n, stepMax-left)
+		var wg sync.WaitGroup
+		start := make(chan struct{})
+		for w := 0; w < g; w++ {
+			w := w
+			wg.Add(1)
+			go func() {
+				defer wg.Done()
+				<-start
+				for i := 0; i < per; i++ {
+					out[w][i] = n.Generate()
+				}
+			}()
+		}
+		close(start)
+		wg.Wait()
+		seen := make(map[int64]int, g*per)
+		max := first
+		for w := 0; w < g; w++ {
+			for i, id := range out[w] {
+				if _, nd, _ := snowflake.IDFields(id); nd != node {
+					k.Fail("mono/node-field", "%s node=%d: returned %s whose node field is %d", l, node, fields(id), nd)
+					return
+				}
+				if id <= first {
+					k.Fail("mono/not-increasing", "%s node=%d round %d: goroutine %d got %s, not above %s which was returned before the round began (counter preset to %d)", l, node, round, w, fields(id), fields(first), stepMax-left)
+					return
+				}
+				if i > 0 && id <= out[w][i-1] {
+					k.Fail("mono/not-increasing", "%s node=%d round %d: goroutine %d got %s right after %s (counter preset to %d, %d goroutines)", l, node, round, w, fields(id), fields(out[w][i-1]), stepMax-left, g)
+					return
+				}
+				if ow, dup := seen[id]; dup {
+					k.Fail("mono/duplicate-id", "%s node=%d round %d: %s was returned twice (goroutines %d and %d) while the step counter wrapped (preset to %d, %d goroutines)", l, node, round, fields(id), ow, w, stepMax-left, g)
+					return
+				}
+				seen[id] = w
+				if id > max {
+					max = id
+				}
+			}
+		}
+		floor = max
+		total += int64(g*per) + 1
+	}
+	k.Evals(total)
+	k.Count("mono_wrap_conc_ids", total)
+	k.Count("mono_wrap_conc_rounds", int64(rounds))
+}
